@@ -17,10 +17,17 @@
   `while` loops: same state tuple → body by body (`whileM_congr`); the same components in another ORDER (the translator orders
   the state by first assignment in the body) → `ge_while_perm` finds the rearrangement from the two initial tuples
   (`bind_whileM_perm`); a state with another MEANING (count-down `remaining` vs count-up `absorbed`) → `whileM_map` with an
-  explicit relation and invariant (used in Lemmas/BridgeSponge.lean).
+  explicit relation and invariant (used in Lemmas/BridgeSponge.lean); a body that agrees with the reference one only on the
+  REACHABLE states (first-iteration action hoisted out of the loop) → `whileM_congr_inv` with an invariant of the reference loop.
+  `for` loops: the bodies are compared under `lo ≤ i < hi` (`rangeM_congr_mem`), and every hypothesis in the context of
+  `gen_equiv` (e.g. a no-wrap bound on a count, given by the caller) is available to the arithmetic at the leaves: two
+  independent writes at `j` and `n + j`, `j < n`, may be issued in either order.  `store (load s)` of an unaligned vector
+  load/store pair is read as a copy of 4 resp. 8 words (`pt_store_load`).
   Nothing here depends on generated code.
 -/
 import GoldilocksVerif.Model.TrRt
+import GoldilocksVerif.Isa.Avx2
+import GoldilocksVerif.Isa.Avx512
 import GoldilocksVerif.Lemmas.BridgeEquivAttr
 import Mathlib.Tactic.SplitIfs
 import Lean.Meta.Tactic.Delta
@@ -45,6 +52,40 @@ theorem rangeM_congr {σ : Type} {lo hi lo' hi' step : Nat} {s s' : σ} {f g : N
   have : f = g := by funext i t; exact h i t
   rw [this]
 
+theorem rangeMAux_congr_mem {σ : Type} (step : Nat) (f g : Nat → σ → Option σ) :
+    ∀ (n i : Nat) (s : σ), (∀ k, k < n → ∀ t, f (i + k * step) t = g (i + k * step) t) →
+      rangeMAux step f n i s = rangeMAux step g n i s := by
+  intro n
+  induction n with
+  | zero => intro i s _; rfl
+  | succ n ih =>
+    intro i s h
+    rw [rangeMAux_succ, rangeMAux_succ]
+    have h0 := h 0 (Nat.succ_pos n) s
+    rw [Nat.zero_mul, Nat.add_zero] at h0
+    rw [h0]
+    refine optBind_congr rfl (fun s' => ih (i + step) s' (fun k hk t => ?_))
+    have := h (k + 1) (Nat.succ_lt_succ hk) t
+    rw [Nat.succ_mul, ← Nat.add_assoc, Nat.add_right_comm] at this
+    exact this
+
+/-- as `rangeM_congr`, but the bodies only have to agree for the indices the loop visits (`lo ≤ i < hi`): a loop body may be
+    rewritten using the loop bounds (e.g. two writes at `j` and at `j + n`, `j < n`, issued in the other order) -/
+theorem rangeM_congr_mem {σ : Type} {lo hi lo' hi' step : Nat} {s s' : σ} {f g : Nat → σ → Option σ}
+    (hlo : lo = lo') (hhi : hi = hi') (hs : s = s') (h : ∀ i t, lo ≤ i → i < hi → f i t = g i t) :
+    rangeM lo hi step s f = rangeM lo' hi' step s' g := by
+  subst hlo; subst hhi; subst hs
+  unfold rangeM
+  refine rangeMAux_congr_mem step f g _ lo s (fun k hk t => h _ t (Nat.le_add_right _ _) ?_)
+  by_cases hst : step = 0
+  · subst hst; rw [Nat.div_zero] at hk; exact absurd hk (Nat.not_lt_zero _)
+  have h1 : (hi - lo + step - 1) / step * step ≤ hi - lo + step - 1 := Nat.div_mul_le_self _ _
+  have h2 : (k + 1) * step ≤ (hi - lo + step - 1) / step * step := Nat.mul_le_mul_right _ hk
+  rw [Nat.succ_mul] at h2
+  generalize (hi - lo + step - 1) / step * step = q at h1 h2
+  generalize k * step = m at h2 ⊢
+  omega
+
 theorem range_congr {σ : Type} {lo hi lo' hi' step : Nat} {s s' : σ} {f g : Nat → σ → σ}
     (hlo : lo = lo') (hhi : hi = hi') (hs : s = s') (h : ∀ i t, f i t = g i t) :
     range lo hi step s f = range lo' hi' step s' g := by
@@ -64,6 +105,27 @@ theorem whileM_map {σ τ : Type} (f : σ → Option (Bool × σ)) (g : τ → O
     (h : ∀ t, Inv t → f (ψ t) = (g t).map (fun p => (p.1, ψ p.2)))
     (hInv : ∀ t b t', Inv t → g t = some (b, t') → Inv t') :
     ∀ (fuel : Nat) (t : τ), Inv t → whileM f fuel (ψ t) = (whileM g fuel t).map ψ := by
+  intro fuel
+  induction fuel with
+  | zero => intro t _; rfl
+  | succ n ih =>
+    intro t ht
+    rw [whileM_succ, whileM_succ, h t ht]
+    cases hg : g t with
+    | none => rfl
+    | some p =>
+      obtain ⟨b, t'⟩ := p
+      cases b with
+      | false => rfl
+      | true => exact ih t' (hInv t true t' ht hg)
+
+/-- two loops over the same state agree if their bodies agree on every state satisfying an invariant `Inv` of (the reference
+    loop) `g`: used when a rewrite of the body is only correct for the states the loop can reach (a first-iteration action
+    hoisted out of the loop, a fill skipped where it is dead, …) -/
+theorem whileM_congr_inv {σ : Type} (f g : σ → Option (Bool × σ)) (Inv : σ → Prop)
+    (h : ∀ t, Inv t → f t = g t)
+    (hInv : ∀ t b t', Inv t → g t = some (b, t') → Inv t') :
+    ∀ (fuel : Nat) (t : σ), Inv t → whileM f fuel t = whileM g fuel t := by
   intro fuel
   induction fuel with
   | zero => intro t _; rfl
@@ -149,10 +211,11 @@ elab "delta_prefix " s:str : tactic => do
 /-- conditions (hypotheses left by `split_ifs`) as statements over `Nat`, then linear arithmetic -/
 macro "ge_cond_norm" : tactic =>
   `(tactic| try simp only [bne_iff_ne, beq_iff_eq, ne_eq, decide_eq_true_eq, decide_eq_false_iff_not, Bool.not_eq_true,
-      beq_eq_false_iff_ne, bne_eq_false_iff_eq, ge_iff_le, gt_iff_lt, Bool.decide_eq_true, Classical.not_not] at *)
+      beq_eq_false_iff_ne, bne_eq_false_iff_eq, ge_iff_le, gt_iff_lt, Bool.decide_eq_true, Classical.not_not,
+      not_true_eq_false, not_false_eq_true] at *)
 
 /-- the conditions collected on the current path are contradictory -/
-macro "ge_contra" : tactic => `(tactic| (exfalso; ge_cond_norm; bv_omega))
+macro "ge_contra" : tactic => `(tactic| (exfalso; (ge_cond_norm <;> bv_omega)))
 
 open Lean Elab Tactic Meta in
 /-- remove every hypothesis (proposition) from the context; variables stay -/
@@ -175,7 +238,7 @@ macro "ge_word" : tactic =>
              | (try simp only [bv_ofNat_mul, bv_ofNat_add, bv_shr1, bv_shl1]
                 first
                 | with_reducible rfl
-                | (ge_cond_norm; bv_omega)
+                | (ge_cond_norm <;> bv_omega)
                 | (ge_clear_hyps; grind only))))
 
 /-- equality of two natural numbers (element counts, offsets): linear arithmetic, `toNat` of words included -/
@@ -184,14 +247,14 @@ macro "ge_nat" : tactic =>
              first
              | with_reducible rfl
              | omega
-             | (ge_cond_norm; bv_omega)))
+             | (ge_cond_norm <;> bv_omega)))
 
 open Lean Elab Tactic Meta in
 /-- `f a₁ … aₙ = f b₁ … bₙ` (same constant or variable `f`): one new goal `aᵢ = bᵢ` for every argument position where the two
     sides differ SYNTACTICALLY.  Unlike `congr` it never tries `rfl` up to unfolding (the callees are translated permutations:
     unfolding them is hopeless), it only builds the congruence proof. -/
 elab "ge_congr_args" : tactic => liftMetaTactic fun g => do
-  let t ← instantiateMVars (← g.getType)
+  let t := (← instantiateMVars (← g.getType)).cleanupAnnotations
   let some (_, l, r) := t.eq? | throwError "ge_congr_args: not an equation"
   let f := l.getAppFn
   unless (f.isConst || f.isFVar) && f == r.getAppFn && l.getAppNumArgs == r.getAppNumArgs && l.getAppNumArgs > 0 do
@@ -244,6 +307,20 @@ attribute [region_pt] Region.copyN_apply Region.zeroN_apply Region.unshift_apply
 
 @[region_pt] theorem pt_zero (j : Nat) : Region.zero j = 0#64 := rfl
 
+/-! unaligned vector load / store (`_mm256_loadu_si256` / `_mm256_storeu_si256`, `_mm512_…`) used as a 4- / 8-word copy:
+  `store r (load s)` is `memcpy(r, s, 4 words)` -/
+
+@[region_pt high] theorem pt_store_load (r s : Region) (j : Nat) :
+    (Avx2.store r (Avx2.load s)) j = if j < 4 then s j else r j := by
+  show (if j = 0 then s 0 else if j = 1 then s 1 else if j = 2 then s 2 else if j = 3 then s 3 else r j) = _
+  split_ifs <;> first | rfl | omega | (subst_vars; rfl)
+
+@[region_pt high] theorem pt_store_load512 (r s : Region) (j : Nat) :
+    (Avx512.store r (Avx512.load s)) j = if j < 8 then s j else r j := by
+  show (if j = 0 then s 0 else if j = 1 then s 1 else if j = 2 then s 2 else if j = 3 then s 3
+    else if j = 4 then s 4 else if j = 5 then s 5 else if j = 6 then s 6 else if j = 7 then s 7 else r j) = _
+  split_ifs <;> first | rfl | omega | (subst_vars; rfl)
+
 macro "ge_region_apply" : tactic => `(tactic| simp only [region_pt])
 
 /-! `toNat` of 64-bit arithmetic that provably does not wrap (side conditions discharged from the path conditions): element
@@ -269,20 +346,20 @@ macro "ge_region" : tactic =>
   `(tactic| (show (_ : Region) = _
              first
              | with_reducible rfl
-             | (ge_cond_norm
-                (try simp (disch := first | bv_omega | skip) only [nw_cnt8, nw_sub, nw_add, BitVec.reduceMul, BitVec.reduceSub,
+             | (ge_cond_norm <;>
+                ((try simp (disch := first | bv_omega | skip) only [nw_cnt8, nw_sub, nw_add, BitVec.reduceMul, BitVec.reduceSub,
                   BitVec.reduceAdd, BitVec.reduceToNat, Nat.reduceDiv, Nat.reduceSub, Nat.reduceAdd, Nat.reduceMul])
-                (try simp only [bitvec_to_nat] at *)
-                apply Region.ext'
-                intro j
-                ge_region_apply
-                split_ifs <;> first | with_reducible rfl | omega | (ge_congr_args <;> omega))))
+                 (try simp only [bitvec_to_nat] at *) <;>
+                 (apply Region.ext'
+                  intro j
+                  ge_region_apply
+                  split_ifs <;> first | with_reducible rfl | omega | (ge_congr_args <;> omega))))))
 
 open Lean Elab Tactic Meta in
 /-- succeeds iff the goal is `l = r` where `l` and `r` are applications of the constant `c` (syntactic check, no unification) -/
 elab "ge_eq_heads " c:ident : tactic => do
   let n ← realizeGlobalConstNoOverloadWithInfo c
-  let t ← instantiateMVars (← (← getMainGoal).getType)
+  let t := (← instantiateMVars (← (← getMainGoal).getType)).cleanupAnnotations
   match t.eq? with
   | some (_, l, r) =>
     unless l.getAppFn.isConstOf n && r.getAppFn.isConstOf n do throwError "ge_eq_heads: different heads"
@@ -309,7 +386,7 @@ open Lean Elab Tactic Meta in
 elab "ge_while_perm" : tactic => do
   let g ← getMainGoal
   g.withContext do
-    let tgt ← instantiateMVars (← g.getType)
+    let tgt := (← instantiateMVars (← g.getType)).cleanupAnnotations
     let some (_, l, r) := tgt.eq? | throwError "ge_while_perm: not an equation"
     unless l.isAppOfArity ``Option.bind 4 && r.isAppOfArity ``Option.bind 4 do throwError "ge_while_perm: not binds"
     let wl := l.getArg! 2
@@ -354,7 +431,7 @@ macro "ge_step" : tactic =>
       | ge_region
       | ge_while_perm
       | (ge_eq_heads Option.bind; refine optBind_congr ?_ (fun _ => ?_))
-      | (ge_eq_heads Loop.rangeM; refine rangeM_congr ?_ ?_ ?_ (fun _ _ => ?_))
+      | (ge_eq_heads Loop.rangeM; refine rangeM_congr_mem ?_ ?_ ?_ (fun _ _ _ _ => ?_))
       | (ge_eq_heads Loop.range; refine range_congr ?_ ?_ ?_ (fun _ _ => ?_))
       | (ge_eq_heads Loop.whileM; refine whileM_congr (fun _ => ?_) ?_)
       | ge_congr_args
